@@ -2,6 +2,7 @@ use crate::layer::LayerType;
 use crate::pixel::{Pixels, RawPixels};
 use crate::reader::AseReader;
 use crate::tilemap::TilemapData;
+use crate::tileset::TilesetsById;
 use crate::user_data::UserData;
 use crate::{
     layer::LayersData, AsepriteFile, AsepriteParseError, ColorPalette, PixelFormat, Result,
@@ -196,6 +197,7 @@ impl RawCel<RawPixels> {
         self,
         cel_id: CelId,
         layers: &LayersData,
+        tilesets: &TilesetsById,
         pixel_format: &PixelFormat,
         palette: Option<Arc<ColorPalette>>,
         validate_ref: &F,
@@ -219,8 +221,17 @@ impl RawCel<RawPixels> {
                 CelContent::Linked(other_frame)
             }
             CelContent::Tilemap(tilemap) => {
-                if let LayerType::Tilemap(_) = layers[cel_id.layer as u32].layer_type {
-                    // all good
+                if let LayerType::Tilemap(tileset_id) = layers[cel_id.layer as u32].layer_type {
+                    // The tileset exists, see LayersData::validate.
+                    let tile_count = tilesets.get(tileset_id).map_or(0, |t| t.tile_count());
+                    if let Some(max_id) = tilemap.max_tile_id() {
+                        if max_id >= tile_count {
+                            return Err(AsepriteParseError::InvalidInput(format!(
+                                "Invalid cel. Tilemap Cel ({}) uses tile {}, but the tileset has only {} tiles",
+                                cel_id, max_id, tile_count
+                            )));
+                        }
+                    }
                 } else {
                     return Err(AsepriteParseError::InvalidInput(format!(
                         "Invalid cel. Tilemap Cel ({}) outside of tilemap layer.",
@@ -242,6 +253,7 @@ impl CelsData<RawPixels> {
     pub(crate) fn validate(
         self,
         layers: &LayersData,
+        tilesets: &TilesetsById,
         pixel_format: &PixelFormat,
         palette: Option<Arc<ColorPalette>>,
     ) -> Result<CelsData<Pixels>> {
@@ -292,6 +304,7 @@ impl CelsData<RawPixels> {
                     Some(cel.validate(
                         cel_id,
                         layers,
+                        tilesets,
                         pixel_format,
                         palette.clone(),
                         &validate_ref,
